@@ -87,6 +87,9 @@ func genHistory(r *rand.Rand, n int) History {
 	for len(h.Ops) < n {
 		p := g.pickPool()
 		b := g.pickBranch(p)
+		// at most one fault per operation: which of two errors is reported first is not part
+		// of the property
+		faulty := p == "nopool" || b == "nobranch"
 		switch x := r.Intn(100); {
 		case x < 4 && len(g.pools) < 3:
 			newPool()
@@ -100,6 +103,9 @@ func genHistory(r *rand.Rand, n int) History {
 			add(Op{Kind: "load", Pool: p, Branch: b, Format: f, Data: g.recs(1 + r.Intn(12))})
 		case x < 37:
 			// bodies the reader must reject or that are empty
+			if faulty {
+				continue
+			}
 			bad := []Op{
 				{Kind: "load", Pool: p, Branch: b, Format: "zson", Raw: "{k:1,"},
 				{Kind: "load", Pool: p, Branch: b, Format: "zng", Raw: "this is not zng"},
@@ -112,27 +118,35 @@ func genHistory(r *rand.Rand, n int) History {
 			add(bad[r.Intn(len(bad))])
 		case x < 47:
 			idx := r.Intn(4)
-			if r.Intn(6) == 0 {
+			if r.Intn(6) == 0 && !faulty {
 				idx = -1
 			}
 			add(Op{Kind: "delete", Pool: p, Branch: b, Index: idx})
 		case x < 55:
 			preds := []string{"n==1", "k%3==0", "s=='v7'", fmt.Sprintf("k<%d", r.Intn(g.nextKey+2)), "nosuch==1", "k >", "n==0 or n==4"}
-			add(Op{Kind: "deleteWhere", Pool: p, Branch: b, Src: preds[r.Intn(len(preds))]})
+			pred := preds[r.Intn(len(preds))]
+			if faulty {
+				pred = "n==1"
+			}
+			add(Op{Kind: "deleteWhere", Pool: p, Branch: b, Src: pred})
 		case x < 62:
 			name := fmt.Sprintf("b%d", g.nextBr)
 			g.nextBr++
-			if r.Intn(8) == 0 && len(g.branches[p]) > 0 {
+			if r.Intn(8) == 0 && len(g.branches[p]) > 0 && !faulty {
 				name = g.branches[p][0] // duplicate
 			} else if p != "nopool" && b != "nobranch" {
 				g.branches[p] = append(g.branches[p], name)
 			}
 			add(Op{Kind: "branch", Pool: p, Branch: b, Name: name})
 		case x < 69:
-			add(Op{Kind: "merge", Pool: p, Branch: b, Name: g.pickBranch(p)})
+			child := g.pickBranch(p)
+			if faulty && child == "nobranch" {
+				continue
+			}
+			add(Op{Kind: "merge", Pool: p, Branch: b, Name: child})
 		case x < 74:
 			idx := r.Intn(3)
-			if r.Intn(6) == 0 {
+			if r.Intn(6) == 0 && !faulty {
 				idx = -1
 			}
 			add(Op{Kind: "revert", Pool: p, Branch: b, Index: idx})
@@ -171,7 +185,11 @@ func genHistory(r *rand.Rand, n int) History {
 				"from :pools | sort name | cut name",
 				fmt.Sprintf("from %s:branches | sort branch.name | yield branch.name", p),
 			}
-			add(Op{Kind: "query", Src: qs[r.Intn(len(qs))], Format: respFormats[r.Intn(len(respFormats))], Ctrl: r.Intn(2) == 0})
+			q := qs[r.Intn(len(qs))]
+			if faulty {
+				q = qs[0]
+			}
+			add(Op{Kind: "query", Src: q, Format: respFormats[r.Intn(len(respFormats))], Ctrl: r.Intn(2) == 0})
 		}
 	}
 	return h
@@ -322,6 +340,33 @@ func stateClass(k string) string {
 		return k[:i]
 	}
 	return k
+}
+
+// safeRunHistory shields the run from environment trouble (temp space, descriptors): a
+// panic of the harness itself makes the history run once more; only a repeated one is reported.
+func safeRunHistory(h History) (res histResult) {
+	try := func() (r histResult, panicked string) {
+		defer func() {
+			if e := recover(); e != nil {
+				panicked = fmt.Sprintf("%v\n%s", e, Stack())
+			}
+		}()
+		return runHistory(h), ""
+	}
+	res, p := try()
+	if p == "" {
+		return res
+	}
+	res, p = try()
+	if p == "" {
+		if res.Stats == nil {
+			res.Stats = map[string]int{}
+		}
+		res.Stats["retried-after-harness-panic"]++
+		return res
+	}
+	return histResult{Stats: map[string]int{}, Abort: 0,
+		Fails: []histFail{{0, "C19:service:harness-panic", "the harness panicked twice on this history: " + p}}}
 }
 
 type histFail struct {
@@ -488,12 +533,12 @@ func run(c *Ctx) {
 	if c.Want("service") {
 		var hs []History
 		hs = append(hs, scripted()...)
-		for i := 0; i < c.N(16, 260); i++ {
-			hs = append(hs, genHistory(rand.New(rand.NewSource(c.Rng.Int63())), 8+c.Rng.Intn(13)))
+		for i := 0; i < c.N(12, 200); i++ {
+			hs = append(hs, genHistory(rand.New(rand.NewSource(c.Rng.Int63())), 8+c.Rng.Intn(c.N(9, 13))))
 		}
 		results := make([]histResult, len(hs))
 		// histories are independent: each has its own lakes and server
-		ParallelDo(len(hs), 8, func(i int) { results[i] = runHistory(hs[i]) })
+		ParallelDo(len(hs), 8, func(i int) { results[i] = safeRunHistory(hs[i]) })
 		lap("service: histories")
 		shrunk := map[string]bool{}
 		for i, h := range hs {
